@@ -122,7 +122,78 @@ def gen_names(facts):
     return lines
 
 
-GENERATORS = [('escape', gen_escape), ('names', gen_names)]
+def _wrap_labels(src):
+    """compile a probe with the real MacroProgram and read the nesting of the statement nodes of its <p>"""
+    from chameleon import nodes
+    from chameleon.zpt.program import MacroProgram
+    p = MacroProgram(src, "xml", "<string>", escape=True, default_marker=None, boolean_attributes=frozenset())
+
+    def find(n):
+        # descend to the DefineSlot that belongs to the probe element
+        if isinstance(n, nodes.DefineSlot):
+            return n
+        for attr in ('node', 'content'):
+            c = getattr(n, attr, None)
+            if c is not None and hasattr(c, '_fields'):
+                r = find(c)
+                if r is not None:
+                    return r
+        if isinstance(n, nodes.Sequence):
+            for it in n.items:
+                r = find(it)
+                if r is not None:
+                    return r
+        return None
+    n = None
+    for b in p.body:
+        n = find(b)
+        if n is not None:
+            break
+    labels = []
+    while n is not None and not isinstance(n, nodes.Element):
+        if isinstance(n, nodes.DefineSlot):
+            labels.append('defineSlot')
+        elif isinstance(n, nodes.Define):
+            names = [a.names[0] for a in n.assignments]
+            if 'attrs' in names:
+                labels.append('define')
+            elif isinstance(n.node, nodes.Target):
+                labels.append('target')
+                n = n.node
+            elif isinstance(n.node, nodes.Condition) and isinstance(n.node.node, nodes.Cancel):
+                labels.append('case_')
+                n = n.node.node
+            else:
+                raise RuntimeError('unrecognised Define in wrap chain: %r' % names)
+        elif isinstance(n, nodes.Condition):
+            labels.append('condition')
+        elif isinstance(n, nodes.Repeat):
+            labels.append('repeat_')
+        elif isinstance(n, nodes.Cache):
+            labels.append('switch')
+        elif isinstance(n, nodes.Domain):
+            labels.append('domain')
+        elif isinstance(n, nodes.TxContext):
+            labels.append('context')
+        else:
+            raise RuntimeError('unrecognised node in wrap chain: %s' % type(n).__name__)
+        n = n.node
+    return labels
+
+
+def gen_wrap(facts):
+    common = 'metal:define-slot="s" tal:define="a 1" tal:condition="1" tal:repeat="i x" i18n:domain="d" i18n:context="c" i18n:target="t"'
+    a = _wrap_labels('<div tal:switch="1"><p %s tal:case="1">x</p></div>' % common)
+    b = _wrap_labels('<div><p %s tal:switch="1">x</p></div>' % common)
+    facts['wrap_probe_case'] = a
+    facts['wrap_probe_switch'] = b
+    return ['/-- observed nesting (outermost first) of the statement nodes on one element: probe with tal:case -/',
+            'def wrapProbeCase : List String := ' + lean_strs(a),
+            '/-- … and with tal:switch on the element itself -/',
+            'def wrapProbeSwitch : List String := ' + lean_strs(b)]
+
+
+GENERATORS = [('escape', gen_escape), ('names', gen_names), ('wrap', gen_wrap)]
 
 
 def gen_tables(facts):
